@@ -165,6 +165,10 @@ impl Program {
 pub enum Reject {
     OperandRange { item: usize, what: &'static str },
     LabelTooFar { item: usize },
+    /// The distance does not fit the field, but is congruent modulo 2^16 to one that does. Since
+    /// all address arithmetic is modulo 2^16 the wrapped encoding still reaches the label;
+    /// whether this counts as "fitting" is not judged.
+    LabelWraps { item: usize },
     UndefinedLabel { item: usize, label: String },
     DuplicateLabel { item: usize, label: String },
     OrigTwice { item: usize },
@@ -289,6 +293,10 @@ pub fn encode(p: &Program, stack: bool) -> Result<Image, Reject> {
                     let lo = -(1i64 << (bits - 1));
                     let hi = (1i64 << (bits - 1)) - 1;
                     if off < lo || off > hi {
+                        let wrapped = (off as u16) as i16 as i64;
+                        if wrapped >= lo && wrapped <= hi {
+                            return Err(Reject::LabelWraps { item: i });
+                        }
                         return Err(Reject::LabelTooFar { item: i });
                     }
                     Ok((off as u16) & ((1u32 << bits) - 1) as u16)
